@@ -327,28 +327,28 @@ class Prefixed(BaseModel):
 
     # Comparison operators that respect class convention
     def __lt__(self, other) -> bool:
-        lhs, rhs = _scale_to_smaller(self, other)
-        return round(lhs.number, EPSILON) < round(rhs.number, EPSILON)
+        lhs, rhs = _rounded(self, other)
+        return lhs < rhs
 
     def __le__(self, other) -> bool:
-        lhs, rhs = _scale_to_smaller(self, other)
-        return round(lhs.number, EPSILON) <= round(rhs.number, EPSILON)
+        lhs, rhs = _rounded(self, other)
+        return lhs <= rhs
 
     def __eq__(self, other) -> bool:
-        lhs, rhs = _scale_to_smaller(self, other)
-        return round(lhs.number, EPSILON) == round(rhs.number, EPSILON)
+        lhs, rhs = _rounded(self, other)
+        return lhs == rhs
 
     def __ne__(self, other) -> bool:
-        lhs, rhs = _scale_to_smaller(self, other)
-        return round(lhs.number, EPSILON) != round(rhs.number, EPSILON)
+        lhs, rhs = _rounded(self, other)
+        return lhs != rhs
 
     def __gt__(self, other) -> bool:
-        lhs, rhs = _scale_to_smaller(self, other)
-        return round(lhs.number, EPSILON) > round(rhs.number, EPSILON)
+        lhs, rhs = _rounded(self, other)
+        return lhs > rhs
 
     def __ge__(self, other) -> bool:
-        lhs, rhs = _scale_to_smaller(self, other)
-        return round(lhs.number, EPSILON) >= round(rhs.number, EPSILON)
+        lhs, rhs = _rounded(self, other)
+        return lhs >= rhs
 
 
 # Union of the types which can be converted to `Prefixed`
@@ -407,13 +407,21 @@ def _scale_to_smaller(
     and is converted before scaling."""
 
     other = to_prefixed(other)
-    smaller = (
-        me.prefix
-        if me.number * Decimal(10**me.prefix.value)
-        < other.number * Decimal(10**other.prefix.value)
-        else other.prefix
-    )
+    smaller = me.prefix if me.prefix.value < other.prefix.value else other.prefix
     return me.scale(smaller), other.scale(smaller)
+
+
+def _rounded(me: Prefixed, other: Union[Prefixed, ToPrefixed]) -> Tuple[Decimal, Decimal]:
+    """# The numeric parts of `me` and `other`, scaled to the smaller of their two prefixes
+    and rounded to `EPSILON` decimal places - in a context precise enough for that rounding not to overflow,
+    as the default one does as soon as the two prefixes are about eight decades apart."""
+
+    lhs, rhs = _scale_to_smaller(me, other)
+    return _exactly(
+        lambda: (round(lhs.number, EPSILON), round(rhs.number, EPSILON)),
+        lhs.number,
+        rhs.number,
+    )
 
 
 # Common prefixes as single-character identifiers, and exposed in the module namespace.
